@@ -68,3 +68,59 @@ Section Mono.
   Qed.
 End Mono.
 Print Assumptions C11_rank_iso.
+
+(** the same with monotonicity required only between variables of the diagram (and injectivity everywhere): enough for two
+    runs of the tokenizer, whose id tables agree in order on the variables of the text and are unrelated elsewhere *)
+Section MonoOn.
+  Variable p q : nat -> nat.
+  Hypothesis q_p : forall x, q (p x) = x.
+
+  Lemma p_inj'' x y : p x = p y -> x = y.
+  Proof. intros H. rewrite <- (q_p x), <- (q_p y), H. reflexivity. Qed.
+  Lemma bmap_inj' : forall a b, bmap p a = bmap p b -> a = b.
+  Proof.
+    induction a as [| |t IHt v f IHf]; destruct b as [| |t' v' f']; cbn [bmap]; try discriminate; auto.
+    intros H. inversion H as [[H1 H2 H3]]. apply IHt in H1. apply IHf in H3. apply p_inj'' in H2. subst. reflexivity.
+  Qed.
+  Lemma red_bmap' : forall a, red a -> red (bmap p a).
+  Proof.
+    induction a as [| |t IHt v f IHf]; cbn [bmap red]; auto.
+    intros (Hne & Ht & Hf). split; [intros E; apply Hne; apply bmap_inj'; exact E|]. split; auto.
+  Qed.
+  (** ordered diagrams: every variable below a test is larger than the tested one *)
+  Lemma ord_support : forall a lo x, ord lo a -> In x (support a) -> lo <= x.
+  Proof.
+    induction a as [| |t IHt v f IHf]; intros lo x H Hx; cbn [support] in Hx; [destruct Hx|destruct Hx|].
+    cbn [ord] in H. destruct H as (Hv & Ht & Hf). destruct Hx as [->|Hx]; [exact Hv|].
+    apply in_app_or in Hx. destruct Hx as [Hx|Hx]; [pose proof (IHt (S v) x Ht Hx)|pose proof (IHf (S v) x Hf Hx)]; lia.
+  Qed.
+  Lemma ord_bmap_on : forall a lo lo', ord lo a ->
+    (forall x y, In x (support a) -> In y (support a) -> x < y -> p x < p y) ->
+    (forall x, In x (support a) -> lo' <= p x) -> ord lo' (bmap p a).
+  Proof.
+    induction a as [| |t IHt v f IHf]; intros lo lo' Ho Hm Hlo; cbn [bmap ord]; auto.
+    cbn [ord] in Ho. destruct Ho as (Hv & Ht & Hf).
+    assert (Iv : In v (support (Nd t v f))) by (left; reflexivity).
+    assert (It : forall x, In x (support t) -> In x (support (Nd t v f))) by (intros x Hx; right; apply in_or_app; auto).
+    assert (If : forall x, In x (support f) -> In x (support (Nd t v f))) by (intros x Hx; right; apply in_or_app; auto).
+    split; [apply Hlo; exact Iv|]. split.
+    - apply (IHt (S v)); auto.
+      intros x Hx. pose proof (ord_support t (S v) x Ht Hx). apply Hm; auto.
+    - apply (IHf (S v)); auto.
+      intros x Hx. pose proof (ord_support f (S v) x Hf Hx). apply Hm; auto.
+  Qed.
+
+  Theorem C11_rank_iso_on n m f b1 b2 : nofsub f ->
+    eval_f n f = Some b1 -> eval_f m (rename p f) = Some b2 ->
+    (forall x y, In x (support b1) -> In y (support b1) -> x < y -> p x < p y) -> b2 = bmap p b1.
+  Proof.
+    intros Hns E1 E2 Hm.
+    destruct (sound n f b1 (nofsub_wf f Hns) E1) as [_ R1].
+    destruct (sound m (rename p f) b2 (nofsub_wf _ (nofsub_rename p f Hns)) E2) as [_ R2].
+    assert (R1' : robdd (bmap p b1)).
+    { destruct R1 as [Ho Hr]. split; [apply (ord_bmap_on b1 0 0 Ho Hm); intros; lia|apply red_bmap'; exact Hr]. }
+    apply (proj2 (robdd_canonical b2 (bmap p b1) R2 R1')).
+    intros s. rewrite beval_bmap. exact (C11_rename p q q_p n m f b1 b2 Hns E1 E2 s).
+  Qed.
+End MonoOn.
+Print Assumptions C11_rank_iso_on.
